@@ -506,7 +506,14 @@ func (r *pRun) step(i int, st pStep) bool {
 		// the application hands the terminal over itself (Program.ReleaseTerminal)
 		return pTimed(deadline, func() { _ = r.p.ReleaseTerminal() })
 	case "restore-terminal":
-		return pTimed(deadline, func() { _ = r.p.RestoreTerminal() })
+		// n > 1: the calls follow each other without a pause (an application restoring a terminal that an Exec in
+		// between had already taken back)
+		return pTimed(deadline, func() {
+			_ = r.p.RestoreTerminal()
+			for k := 1; k < st.N; k++ {
+				_ = r.p.RestoreTerminal()
+			}
+		})
 	case "pty-hangup":
 		if r.ptyM == nil {
 			h.addErr("step %d: pty-hangup without a pty", i)
